@@ -9,7 +9,7 @@ import Cellml.Tie.ConvertPw
     Parts: `ConvertCases.lean` (helpers `maybe_convert_expr` = `Convert.maybeConv`, `maybe_convert_child`; one lemma per
     constructor), `ConvertPw.lean` (the Piecewise loop). -/
 
-namespace Cellml.Tie
+namespace Cellml.Tie.PConvert
 open Units Infer Convert Cellml.Gen
 
 /-- the expressions that are images of SymPy objects at the top node: a Piecewise is a chain ending in `undef`, and the
@@ -79,4 +79,4 @@ theorem storeEvaluateUnitsAndFix_tie (reg : Registry) (Γ : VarEnv) (ex : E) :
     simp [bind, Except.bind, Except.map, tryCatch, tryCatchThe, MonadExceptOf.tryCatch, Except.tryCatch, pure,
       Except.pure, StateT.pure]
 
-end Cellml.Tie
+end Cellml.Tie.PConvert
